@@ -10,6 +10,9 @@ import (
 	"sort"
 	"strings"
 
+	"golang.org/x/tools/go/ssa"
+
+	"olacheck/an"
 	"olacheck/core"
 )
 
@@ -596,17 +599,20 @@ var flagTable = map[string]flagRow{
 
 // setDefaultsTable parses config.SetDefaults: path -> default constant; it also reports assignments that are not guarded.
 type defaultsInfo struct {
-	def        map[string]constant.Value
-	unguarded  []string // findings
-	topLevel   map[string]bool
-	pos        map[string]token.Pos
-	boolHelper bool
+	def map[string]constant.Value
+	// conditional: the assignment of the path is made under a condition on another setting (a switch on the store
+	// type, an `if` that names a different path): the default applies to one mode only
+	conditional map[string]bool
+	unguarded   []string // findings
+	topLevel    map[string]bool
+	pos         map[string]token.Pos
+	boolHelper  bool
 }
 
 func parseSetDefaults(c *core.Ctx) *defaultsInfo {
 	return core.Memo(c, "setdefaults", func() *defaultsInfo {
 		pk := pkgOf(c, "config")
-		di := &defaultsInfo{def: map[string]constant.Value{}, topLevel: map[string]bool{}, pos: map[string]token.Pos{}}
+		di := &defaultsInfo{def: map[string]constant.Value{}, topLevel: map[string]bool{}, pos: map[string]token.Pos{}, conditional: map[string]bool{}}
 		if pk == nil {
 			return nil
 		}
@@ -686,6 +692,25 @@ func parseSetDefaults(c *core.Ctx) *defaultsInfo {
 			}
 			return "zero"
 		}
+		// markConditional: the assignment of p is made under a condition that names another setting
+		markConditional := func(p string, guards []ast.Expr) {
+			for _, g := range guards {
+				other := false
+				ast.Inspect(g, func(n ast.Node) bool {
+					if e, ok := n.(ast.Expr); ok {
+						if gp := dropRoot(resolve(e)); gp != "" && gp != p && !strings.HasPrefix(p, gp+".") && !strings.HasPrefix(gp, p+".") {
+							if _, isSel := e.(*ast.SelectorExpr); isSel {
+								other = true
+							}
+						}
+					}
+					return true
+				})
+				if other {
+					di.conditional[p] = true
+				}
+			}
+		}
 		depthLeft := 4
 		var walk func(stmts []ast.Stmt, guards []ast.Expr, top bool)
 		walk = func(stmts []ast.Stmt, guards []ast.Expr, top bool) {
@@ -747,6 +772,7 @@ func parseSetDefaults(c *core.Ctx) *defaultsInfo {
 						continue
 					}
 					di.pos[p] = x.Pos()
+					markConditional(p, guards)
 					if v := constOf(pk, call.Args[1]); v != nil {
 						di.def[p] = v
 					}
@@ -807,6 +833,23 @@ func parseSetDefaults(c *core.Ctx) *defaultsInfo {
 						if !guarded {
 							di.unguarded = append(di.unguarded, fmt.Sprintf("%s is assigned without a zero-value test of %s: an explicitly set value is overwritten", p, p))
 						}
+						markConditional(p, guards)
+						for _, g := range guards[:0] {
+							other := false
+							ast.Inspect(g, func(n ast.Node) bool {
+								if e, ok := n.(ast.Expr); ok {
+									if gp := dropRoot(resolve(e)); gp != "" && gp != p && !strings.HasPrefix(p, gp+".") && !strings.HasPrefix(gp, p+".") {
+										if _, isSel := e.(*ast.SelectorExpr); isSel {
+											other = true
+										}
+									}
+								}
+								return true
+							})
+							if other {
+								di.conditional[p] = true
+							}
+						}
 						if v := constOf(pk, rhs); v != nil {
 							di.def[p] = v
 						}
@@ -831,7 +874,12 @@ func parseSetDefaults(c *core.Ctx) *defaultsInfo {
 					}
 				case *ast.SwitchStmt:
 					for _, cl := range x.Body.List {
-						walk(cl.(*ast.CaseClause).Body, guards, false)
+						g2 := guards
+						// a case of a switch on another setting is a condition on that setting (the default arm is not)
+						if x.Tag != nil && len(cl.(*ast.CaseClause).List) > 0 {
+							g2 = append(append([]ast.Expr{}, guards...), x.Tag)
+						}
+						walk(cl.(*ast.CaseClause).Body, g2, false)
 					}
 				case *ast.BlockStmt:
 					walk(x.List, guards, top)
@@ -868,6 +916,7 @@ func init() {
 				c.Unresolved("config.SetDefaults", "SetDefaults not found")
 				return
 			}
+			c.SetTags("guard")
 			c.Check(di.boolHelper, "boolDefault", token.NoPos, "boolDefault starts with `if cur != nil { return cur }`")
 			bad := map[string]string{}
 			for _, u := range di.unguarded {
@@ -889,6 +938,74 @@ func init() {
 					}
 					c.Pass("default:"+p, di.pos[p], "guarded, default %s", d)
 				}
+			}
+			// mode switches: a setting whose *unset* value selects behaviour somewhere in the module (a branch on
+			// `setting == ""` / `!= ""` / `== 0` / `!= 0` outside the configuration package — the memory store is backed by a
+			// directory exactly when a root directory is set) must not be given a default for every mode: its default is
+			// applied only under a condition on another setting (the store type)
+			c.SetTags("mode")
+			defer c.SetTags()
+			type sw struct {
+				pos token.Pos
+				fn  string
+			}
+			switches := map[string]sw{}
+			for _, fn := range c.P.ModFuncs {
+				if strings.HasSuffix(core.FuncPkgPath(fn), "/config") {
+					continue
+				}
+				for _, b := range fn.Blocks {
+					ifi := an.BlockIf(b)
+					if ifi == nil {
+						continue
+					}
+					x, y, op, ok := an.CmpTest(ifi)
+					if !ok || (op != token.EQL && op != token.NEQ) {
+						continue
+					}
+					for _, pair := range [][2]ssa.Value{{x, y}, {y, x}} {
+						k, isC := an.Strip(pair[1]).(*ssa.Const)
+						if !isC || k.Value == nil {
+							continue
+						}
+						zero := false
+						switch k.Value.Kind() {
+						case constant.String:
+							zero = constant.StringVal(k.Value) == ""
+						case constant.Int:
+							zero = constant.Sign(k.Value) == 0
+						}
+						if !zero {
+							continue
+						}
+						fp := fieldPath(an.Strip(pair[0]))
+						idx := -1
+						for i, seg := range fp {
+							if seg == "conf" {
+								idx = i
+							}
+						}
+						if idx < 0 || idx+1 >= len(fp) {
+							continue
+						}
+						pth := strings.Join(fp[idx+1:], ".")
+						if _, seen := switches[pth]; !seen {
+							switches[pth] = sw{ifi.Pos(), c.P.FuncName(fn)}
+						}
+					}
+				}
+			}
+			var sps []string
+			for p := range switches {
+				sps = append(sps, p)
+			}
+			sort.Strings(sps)
+			for _, p := range sps {
+				if _, has := di.pos[p]; !has {
+					c.Pass("mode-switch:"+p, switches[p].pos, "%s branches on ‘%s is unset’; SetDefaults leaves the setting alone", switches[p].fn, p)
+					continue
+				}
+				c.Check(di.conditional[p], "mode-switch:"+p, di.pos[p], "%s branches on ‘%s is unset’ (at %s), and SetDefaults applies the default of %s only under a condition on another setting: %v — a default for every mode makes ‘unset’ unreachable: the memory store would be backed by the working directory", switches[p].fn, p, c.P.Pos(switches[p].pos), p, di.conditional[p])
 			}
 		}})
 
